@@ -245,18 +245,14 @@ func c17XMLAttr(c *engine.Ctx, in []byte, args map[string]string) {
 			val = append([]byte{}, l.AttrVal()...)
 		}
 	}
-	norm := bytes.Map(func(r rune) rune {
-		if r == '\t' || r == '\n' || r == '\r' {
-			return ' '
-		}
-		return r
-	}, res)
-	if strings.Join(toks, " ") != "StartTag Attribute StartTagCloseVoid" || !bytes.Equal(val, norm) {
+	if strings.Join(toks, " ") != "StartTag Attribute StartTagCloseVoid" || len(val) < 2 || val[0] != res[0] || val[len(val)-1] != res[0] {
 		c.Fail("xml-attr-read-back", fmt.Sprintf("%s: <a x=…/> lexes as [%s] with value %q", desc, strings.Join(toks, " "), val))
 		return
 	}
-	if a, b := stdhtml.UnescapeString(string(res[1:len(res)-1])), stdhtml.UnescapeString(string(in)); a != b {
-		c.Fail("xml-attr-decodes-differently", fmt.Sprintf("%s decodes to %q, the value decodes to %q", desc, a, b))
+	// what the lexer reads back (it turns raw tabs and line breaks into blanks as XML prescribes), unquoted and decoded,
+	// is the text of the original value
+	if a, b := stdhtml.UnescapeString(string(val[1:len(val)-1])), stdhtml.UnescapeString(string(in)); a != b {
+		c.Fail("xml-attr-decodes-differently", fmt.Sprintf("%s is read back as %q, which decodes to %q; the value decodes to %q", desc, val, a, b))
 	}
 	s, d := bytes.Count(in, []byte("'")), bytes.Count(in, []byte("\""))
 	cost := map[byte]int{'\'': s, '"': d}
